@@ -198,6 +198,9 @@ type Interp struct {
 	// concretely (fixed trip count).
 	Unrolled map[*ssa.Function]int
 	loopy    map[*ssa.Function]bool
+	// Incomplete: functions entered by a probe that was cut short by an
+	// undecided construct (with the reason).
+	Incomplete map[*ssa.Function]string
 	// OnPoll answers a non-blocking poll of the Done channel of the named
 	// context with a fresh observation.
 	OnPoll func(dev string) bdd.Node
@@ -1150,11 +1153,18 @@ func (in *Interp) exec(fr *frame, instr ssa.Instruction, pred bdd.Node, st *Stat
 			in.undecided(x.Pos(), "type assertion on a symbolic interface value")
 		}
 		match := types.Identical(iv.ConcType, x.AssertedType)
+		var matched Value = iv.Conc
+		if it, isIface := x.AssertedType.Underlying().(*types.Interface); isIface {
+			// assertion to an interface type: the dynamic type must implement it,
+			// and the result is again an interface value holding the same value
+			match = types.Implements(iv.ConcType, it)
+			matched = &Iface{Nil: bdd.False, Conc: iv.Conc, ConcType: iv.ConcType}
+		}
 		if x.CommaOk {
 			var v Value = in.zero(x.AssertedType)
 			okb := C.Const(1, 0)
 			if match {
-				v, okb = iv.Conc, C.Const(1, 1)
+				v, okb = matched, C.Const(1, 1)
 			}
 			fr.vals[x] = &Tuple{Elems: []Value{v, okb}}
 		} else {
@@ -1162,7 +1172,7 @@ func (in *Interp) exec(fr *frame, instr ssa.Instruction, pred bdd.Node, st *Stat
 				in.T.Emit(pred, "Panic", "", nil, 0, in.P.Pos(x.Pos()))
 				fr.vals[x] = in.zero(x.AssertedType)
 			} else {
-				fr.vals[x] = iv.Conc
+				fr.vals[x] = matched
 			}
 		}
 	case *ssa.MakeClosure:
@@ -2445,13 +2455,33 @@ func (in *Interp) indexSite(x *ssa.IndexAddr, base Value, iv dom.BV) {
 // no verdict for what was not reached).
 func (in *Interp) Probe(fn *ssa.Function, args []Value, guard bdd.Node, st *State) {
 	depth, instr, pred := in.depth, in.curInstr, in.curPred
+	before := map[*ssa.Function]int{}
+	for f, n := range in.Funcs {
+		before[f] = n
+	}
 	defer func() {
 		in.depth, in.curInstr, in.curPred = depth, instr, pred
 		if r := recover(); r != nil {
-			if _, ok := r.(*Undecided); ok {
+			// the probe was cut short: the functions it entered were NOT interpreted
+			// on every path - a site in them that has no verdict was not shown
+			// unreachable
+			cut := func(why string) {
+				if in.Incomplete == nil {
+					in.Incomplete = map[*ssa.Function]string{}
+				}
+				in.Incomplete[fn] = why
+				for f, n := range in.Funcs {
+					if n != before[f] {
+						in.Incomplete[f] = why
+					}
+				}
+			}
+			if u, ok := r.(*Undecided); ok {
+				cut(u.Error())
 				return
 			}
 			if _, ok := r.(*bdd.Budget); ok {
+				cut("value-domain budget exceeded")
 				return
 			}
 			panic(r)
